@@ -247,6 +247,58 @@ def _make(b, rnd, name, k):
     return None
 
 
+def gen_circuit_focus(rnd):
+    """A circuit of 6-11 vertices (alldifferent + no_sub_cycle [+ scc]) with a planted Hamiltonian cycle, part of the successors
+    fixed (paths exist from the start) and a few side constraints on the successor variables that move bounds without
+    instantiating anything - the sub-cycle constraint removes values that sit at a bound, so it depends on those moves."""
+    b = _B(rnd, {})
+    m = rnd.randint(6, 11)
+    perm = list(range(1, m))
+    rnd.shuffle(perm)
+    order = [0] + perm
+    succ = [0] * m
+    for i in range(m):
+        succ[order[i]] = order[(i + 1) % m]
+    style = rnd.choice(["wide", "wide", "narrow", "pairs"])
+    if style == "pairs":
+        # two-value windows [v, v+1]: Hall pairs for alldifferent, and removing one value instantiates the successor
+        vs = []
+        for i in range(m):
+            lo = succ[i] - rnd.randint(0, 1)
+            lo = max(0, min(m - 2, lo))
+            vs.append(b.new_var(lo, lo + 1, succ[i]))
+    elif style == "narrow":
+        vs = [b.new_var(max(0, succ[i] - rnd.randint(0, 2)), min(m - 1, succ[i] + rnd.randint(0, 2)), succ[i])
+              for i in range(m)]
+    else:
+        vs = [b.new_var(0, m - 1, succ[i]) for i in range(m)]
+    b.props.append([vs, "alldifferent", []])
+    b.props.append([vs, "no_sub_cycle", []])
+    if rnd.random() < 0.4:
+        b.props.append([vs, "scc", []])
+    for _ in range(rnd.randint(0, 3)):
+        k = rnd.randint(2, 3)
+        xs = rnd.sample(vs, k)
+        name = rnd.choice(["affine_leq", "affine_geq", "max_leq", "min_geq", "affine_leq", "affine_geq"])
+        if name.startswith("affine"):
+            a = [rnd.choice([-2, -1, 1, 1, 2]) for _ in xs]
+            sm = sum(ai * b.val(v) for ai, v in zip(a, xs))
+            b.props.append([xs, name, a + [sm + (rnd.randint(0, 2) if name == "affine_leq" else -rnd.randint(0, 2))]])
+        elif name == "max_leq":
+            b.props.append([xs + [b.aux(max(b.val(x) for x in xs) + rnd.randint(0, 1), 2)], name, []])
+        else:
+            b.props.append([xs + [b.aux(min(b.val(x) for x in xs) - rnd.randint(0, 1), 2)], name, []])
+    rnd.shuffle(b.props)
+    model = {"doms": b.doms, "idx": b.idx, "off": b.off, "props": b.props}
+    plant = [b.val(v) for v in range(len(b.idx))]
+    doms = [list(d) for d in model["doms"]]
+    for v in rnd.sample(vs, rnd.randint(m // 3, (2 * m) // 3) if style == "wide" else rnd.randint(0, m // 2)):
+        doms[model["idx"][v]] = [plant[v], plant[v]]
+    model = dict(model, doms=doms)
+    assert O.check_solution(model, plant) is None
+    return model, plant
+
+
 def restrict(model, plant, rnd, keep_free):
     """The model with every shared domain fixed to its planted value except `keep_free` randomly chosen ones."""
     D = len(model["doms"])
@@ -313,6 +365,10 @@ def check_op(model, cfg, op, planted, limit, objective=None, sense=None, max_sol
         fail("C08", "not_a_fixpoint", "in-engine probe (compiled mode, large model): affine_eq still prunes after %d "
              "pass(es) with its queue bit clear" % r["not_a_fixpoint_affine_eq_not_queued"],
              constraint="affine_eq", queued=False, last=False, affine_eq_only=(r["not_a_fixpoint"] == 0))
+    if r["reexecution_fails_affine_eq_not_queued"]:
+        fail("C08", "not_a_fixpoint", "in-engine probe (compiled mode, large model): affine_eq fails when re-executed after "
+             "%d pass(es) with its queue bit clear" % r["reexecution_fails_affine_eq_not_queued"],
+             constraint="affine_eq", queued=False, last=False, affine_eq_only=True)
     for sol in sols + ([best] if best is not None else []):
         cnt("big.solutions_checked_against_O-sem")
         why = O.check_solution(model, list(sol))
@@ -488,12 +544,22 @@ def run_big_interp(task):
             res["truncated"] = True
             break
         exact = it % 2 == 0
-        model, plant = gen_big(rnd, dict(task.get("gen") or {}, types=EXACT_TYPES if exact else None,
-                                         circuit=0.0 if exact else 0.25))
-        if it % 3 == 2:
-            model = restrict(model, plant, rnd, rnd.randint(4, 8))
+        if task.get("circuits"):
+            exact = False
+            model, plant = gen_circuit_focus(rnd)
+        else:
+            model, plant = gen_big(rnd, dict(task.get("gen") or {}, types=EXACT_TYPES if exact else None,
+                                             circuit=0.0 if exact else 0.25))
+            if it % 3 == 2:
+                model = restrict(model, plant, rnd, rnd.randint(4, 8))
         cfg = {"calg": task.get("calg") or rnd.choice(["bc", "bc", "shaving"]), "vh": rnd.choice(CFG_VH),
                "dh": rnd.choice(CFG_DH)}
+        if task.get("circuits"):
+            # which bound a decision moves decides everything here: walk through all heuristic pairs
+            cfg = {"calg": "bc", "vh": CFG_VH[it % 3], "dh": CFG_DH[(it // 3) % 4]}
+            if it % 12:
+                model, plant = res["_last"]
+            res["_last"] = (model, plant)
         spec = {}
         for m in task["monitors"]:
             spec[m] = dict((task.get("monitor_opts") or {}).get(m, {}))
@@ -507,7 +573,8 @@ def run_big_interp(task):
         if out.stats and out.stats[10] >= 1:
             res["nontrivial"].append(h)
         cnt("big_interp.runs")
-        cnt("big_interp.runs_exact_bc_models" if exact else "big_interp.runs_all_types")
+        cnt("big_interp.runs_circuit_focus" if task.get("circuits") else (
+            "big_interp.runs_exact_bc_models" if exact else "big_interp.runs_all_types"))
         for k, v in out.monitor_counts.items():
             if isinstance(v, (int, float)) and not k.endswith("_limit"):
                 cnt(k, v)
@@ -544,6 +611,7 @@ def run_big_interp(task):
         if not res["samples"]:
             res["samples"].append({"model": model, "cfg": cfg, "monitor_counts": {
                 k: v for k, v in out.monitor_counts.items() if isinstance(v, int)}})
+    res.pop("_last", None)
     res["wall"] = time.time() - t0
     return res
 
@@ -557,11 +625,17 @@ def replay_big_interp(task):
     return {"fails": [f for f in out.monitor_fails if f["prop"] == task["prop"]]}
 
 
-def interp_jobs(prop, tier, seed, monitors, n=None, monitor_opts=None, calg=None):
+def interp_jobs(prop, tier, seed, monitors, n=None, monitor_opts=None, calg=None, circuits=0):
     from framework.common import Job
 
     q = tier == "quick"
-    return [Job("framework.props.bigrun", "run_big_interp",
+    extra = [Job("framework.props.bigrun", "run_big_interp",
+                 {"props": [prop], "seed": seed * 6173 + k * 17 + 3, "count": 4000 if q else 60000, "monitors": monitors,
+                  "monitor_opts": monitor_opts or {}, "deadline_s": 50 if q else 900, "calg": calg, "circuits": True,
+                  "stop_after": 15},
+                 mode="interp", timeout=300 if q else 1800, tag="circuits:%d" % k, stall_s=120)
+             for k in range(circuits)]
+    return extra + [Job("framework.props.bigrun", "run_big_interp",
                 {"props": [prop], "seed": seed * 6163 + k * 13 + 1, "count": 25 if q else 600, "monitors": monitors,
                  "monitor_opts": monitor_opts or {}, "deadline_s": 50 if q else 900, "calg": calg,
                  "gen": {"max_vars": 14 if k % 2 == 0 else 22, "max_arity": 8 if k % 2 == 0 else 12}},
